@@ -50,6 +50,8 @@ type redisWorld struct {
 	netFaults map[int64]string
 	bursts    int64
 	dropS2C   map[int]bool
+	gets      int64 // lone GET bursts so far (fault kind get_lost counts these)
+	failDials int   // the next dials fail (the tunnel to the server is down for a moment)
 	LostMsgs  int64
 	pmu       sync.Mutex          // guards scans, capture and dropS2C (touched by the pumps of a connection)
 	scans     map[int][][]string  // connection -> pages still to hand out (index = cursor)
@@ -68,7 +70,9 @@ func newRedisWorld(e *sim.Env, c *sim.Case) (*redisWorld, error) {
 	m.SetTime(now.Add(time.Duration(c.Knob("redis_clock_skew_ns", 0))))
 	nf := map[int64]string{}
 	for _, f := range c.Faults {
-		if f.Seam == "net" {
+		if f.Seam == "net" && f.Kind == "get_lost" {
+			nf[-f.Ord] = f.Kind // counted in lone GETs, not in bursts
+		} else if f.Seam == "net" {
 			nf[f.Ord] = f.Kind
 		}
 	}
@@ -108,6 +112,13 @@ func (rw *redisWorld) client(i int) kvs.Storage {
 }
 
 func (rw *redisWorld) dial(ctx context.Context, network, addr string) (net.Conn, error) {
+	if rw.failDials > 0 {
+		// what a dialer with a time limit of its own reports: an error that wraps a context error
+		// which is not the caller's
+		rw.failDials--
+		rw.e.FaultFired("net_dial_failed")
+		return nil, fmt.Errorf("tunnel dial %s: %w", addr, context.DeadlineExceeded)
+	}
 	c1, c2 := net.Pipe()
 	p1, p2 := net.Pipe()
 	rw.m.Server().ServeConn(p2)
@@ -215,8 +226,23 @@ func (rw *redisWorld) pumpC2S(id int, from, to net.Conn) {
 		}
 		first := true
 		single := false
-		if _, rest, _, ok := parseCommand(acc); ok && len(rest) == 0 {
+		if _, rest, nm, ok := parseCommand(acc); ok && len(rest) == 0 {
 			single = true // one command travels alone: the client waits for its reply
+			if nm == "GET" && !inTx {
+				rw.gets++
+				if rw.netFaults[-rw.gets] == "get_lost" {
+					// a read that never arrives (nothing happens at the server), the connection breaks
+					// and the tunnel is down when the client dials again
+					zsimrt.Yield("net:c2s:fault")
+					rw.LostMsgs++
+					rw.failDials++
+					rw.e.FaultFired("net_get_lost")
+					rw.e.Logf("redis conn%d GET #%d lost, connection broken", id, rw.gets)
+					from.Close()
+					to.Close()
+					return
+				}
+			}
 		}
 		for {
 			cmd, rest, name, ok := parseCommand(acc)
